@@ -1,6 +1,7 @@
 import PdfModel.Core.Proto
 import PdfModel.Model.Enc
 import PdfModel.Spec.CodecsCheck
+import PdfModel.Spec.Lzw
 
 /-! Line-protocol handler for the C05 streams (bytes as hex, `-` = empty).
 
@@ -12,7 +13,8 @@ import PdfModel.Spec.CodecsCheck
   c05.chain <filters> <data> <ext>                → `ok <bytes>` | `err` | `panic` | `oof`
         filters: `,`-separated, `-` for none: hex | a85 | rl | jpx | dct | ccitt | jbig2 | crypt |
                  fl:<pred>:<colors>:<bpc>:<columns>:<early> | lzw:<pred>:<colors>:<bpc>:<columns>:<early>
-        ext: `-` or `;`-separated `<fn>.<input>.<output|!>`, fn ∈ z (zlib) r (raw deflate) l0 l1 (LZW) d (dct);
+        ext: `-` or `;`-separated `<fn>.<input>.<output|!>`, fn ∈ z (zlib) r (raw deflate) d (dct)
+             (l0 / l1 entries of older harnesses are accepted and ignored: LZW is decoded by the model itself);
              inputs that are not listed make the third-party decoder fail
   c05.pair <names> <parms>                        → `ok name=parm,…` | `err`
         names / parms: `null` | `bad` | `one:<tok>` | `arr:<tok|null>,…` (`arr:` = empty array)
@@ -20,6 +22,8 @@ import PdfModel.Spec.CodecsCheck
   c05.conf <hex|a85|rl> <bytes> <text>            → `1` if `text` is in the encoder relation for `bytes` (sound checker), else `0`
   c05.spec.png <bpp> <stride> <tags> <image>      → the specification's PNG prediction of the image (rows of `stride` bytes)
   c05.spec.tiff <colors> <bpc> <columns> <stride> <image> → the specification's TIFF predictor 2
+  c05.lzw <early 0|1> <data>                      → the model of weezl's decoder: `ok <bytes>` | `err` | `oof`
+  c05.lzwconf <early 0|1> <bytes> <text>          → `1` if `text` is in the LZW encoder relation for `bytes` (sound checker)
 -/
 
 namespace DrvC05
@@ -74,7 +78,6 @@ def lookupExt (tab : List ExtEntry) (fn : String) (input : Bytes) : Option Bytes
 def extOf (tab : List ExtEntry) : Ext where
   inflateZlib := lookupExt tab "z"
   inflateRaw := lookupExt tab "r"
-  lzw := fun early => lookupExt tab (if early then "l1" else "l0")
   dct := lookupExt tab "d"
   zlibEncode := fun _ => []
   lzwEncode := fun _ => none
@@ -161,6 +164,14 @@ def handle (args : List String) : String :=
       if stride = 0 then "bad-request" else
       hexOfBytes ((chunkList stride (image.length + 1) image).map (Codecs.tiffDiffRow colors bpc columns)).flatten
     | _, _, _, _, _ => "bad-request"
+  | ["c05.lzw", early, d] =>
+    match boolOf early, bytesOfHex d with
+    | some early, some d => showOut (Lzw.decode early d)
+    | _, _ => "bad-request"
+  | ["c05.lzwconf", early, bs, text] =>
+    match boolOf early, bytesOfHex bs, bytesOfHex text with
+    | some early, some bs, some text => showBool (LzwSpec.checkLzw early bs text)
+    | _, _, _ => "bad-request"
   | _ => "bad-request"
 
 end DrvC05
